@@ -108,9 +108,9 @@ func TestC34(t *testing.T) {
 			"distinct = (segment-shape string, accepted/rejected, hops found) / (pair relation) / (denom shape, hop count)")
 	defer c.Finish()
 	c.Assume("'ICS-20 accepts' = FungibleTokenPacketData.ValidateBasic accepts the denomination string (the only place where full paths are parsed); strings accepted only as native bank denoms by MsgTransfer are reported as observations")
-	c.Floor("path_accepted", 3000)
-	c.Floor("path_rejected", 1500)
-	c.Floor("accepted_with_trace", 1500)
+	c.Floor("path_accepted", 2000)
+	c.Floor("path_rejected", 800)
+	c.Floor("accepted_with_trace", 800)
 	c.Floor("accepted_native_with_slash", 300)
 	c.Floor("alt_splits_checked", 1500)
 	c.Floor("escrow_pairs", 3000)
